@@ -32,6 +32,7 @@ func init() {
 		ruleLoadBody(c, "C01-R4", "C01-R4", "C01-R4", "C01-R4", "C01-R4")
 		ruleUpdateLoop(c, "C01-R4")
 		ruleCaptureBeforeProject(c, "C01-R5")
+		ruleMainToShadow(c, "C01-R5", "C01-R5", "C01-R5")
 		c.Rule("C01-R6", "PUBLISH: the stale-marker cutoff is off unless the sweeper is enabled; the id reported as synced is bounded by what LMDB recorded (else a local write is never uploaded and replicas cannot converge)")
 		ruleCutoffProvenance(c, "C01-R6")
 		ruleSyncedIdBound(c, "C01-R6")
@@ -447,6 +448,8 @@ func init() {
 		ruleMainToShadow(c, "C14-R5", "C14-R5", "C14-R5")
 		ruleReadDBILoop(c, "C14-R4", false)
 		ruleParseTable(c, "C14-R6")
+		c.Rule("C14-R7", "PUTBASIC-ON-FRESH: PutBasic (which zeroes the extension count) is only applied to a fresh buffer or the caller's scratch field, never to bytes read from LMDB")
+		rulePutBasicFresh(c, "C14-R7")
 	})
 }
 
@@ -490,6 +493,10 @@ func init() {
 		ruleLimiter(c, "C17-R7")
 		c.Rule("C17-R8", "SHARED-FIELDS: every struct field written after construction and reachable from goroutines not ordered by start-up is accessed under a common lock (static lockset over the VTA call graph)")
 		ruleSharedFields(c, "C17-R8")
+		c.Rule("C17-R9", "PUBLISHED-FROZEN: a locally built map is not modified after it was stored into a shared object or published, except under the publishing lock")
+		rulePublishedFrozen(c, "C17-R9")
+		c.Rule("C17-R10", "SUBSCRIPTION-CLOSED: a function that subscribes and keeps the subscription closes it on every path out")
+		ruleSubscriptionClosed(c, "C17-R10")
 	})
 }
 
